@@ -100,13 +100,14 @@ Definition sem_cases (before after : func) : list N :=
   map (fun j => sem_case 100 before after (arg_vector (length (f_params before)) j)) (seq 0 6).
 
 (* ---- one tie case ---- *)
-Inductive pass := PDce | PCcp | PLvn.
+Inductive pass := PDce | PCcp | PLvn | PPipe.      (* PPipe: optimize_function_for_rounds with only lvn switched on *)
 
 Definition model (p : pass) (f : func) : option (func * fl) :=
   match p with
   | PDce => Some (dce f, fl0)
   | PCcp => ccp f
   | PLvn => Some (lvn f, fl0)
+  | PPipe => pipeline true f
   end.
 
 (* [status; wf; Passes.dead_final_operands (ccp only); escape flag; sanity runs reproduced; sanity runs NOT reproduced;
